@@ -6,3 +6,4 @@ import MW.Props.C13
 #print axioms MW.Props.C13.spend_sound
 #print axioms MW.Props.C13.update_config_sound
 #print axioms MW.Props.C13.swap_in_wire
+#print axioms MW.Props.C13.swap_out_wire
